@@ -14,7 +14,7 @@ def check(ctx):
     proved = ctx.prove("props/C05.v", ["proofs/AlgebraSound.v"])
     ctx.build(["model/Script.vo"])
     rng = random.Random(ctx.seed)
-    n_script = 1500 if ctx.quick else 20000
+    n_script = 1500 if ctx.quick else 100000
     res = pa.script_crosscheck(rng, n_script, None if ctx.quick else 2, "c05")
     ctx.count(len(res["cases"]), res["distinct"])
     ctx.notes["script_hist"] = res["hist"]
@@ -24,7 +24,7 @@ def check(ctx):
         ctx.broke("correspondence:T1-script", "cases file failed to evaluate: " + err)
     for c, e in res["mismatches"][:5]:
         ctx.broke("correspondence:T1-script", f"translated algebra and IoContract disagree on {c} (implementation: {e})")
-    n_sem = (1500 if ctx.quick else 30000) * (1 if proved and not ctx.broken else 4)
+    n_sem = (1500 if ctx.quick else 300000) * (1 if proved and not ctx.broken else 4)
     stats, viol = pa.semantic_search(rng, n_sem)
     ctx.count(n_sem, stats["distinct_topologies"])
     ctx.notes["semantic_search"] = stats
